@@ -1,7 +1,13 @@
 /-
   C02 — execution never leaves the interpreter's own memory (no underflow, no wild jump).
+
+  `fault` is every access vm.rs performs unchecked or by panicking: pop of an empty stack, fetch or
+  operand read outside the code, invalid opcode or builtin byte, constant/local slot out of range,
+  base pointer underflow, return without a caller.  The theorems say: bytecode accepted by the
+  checker of Model/Verifier never makes the machine of Model/VM fault, in any number of steps.
+  The check applies this checker to the REAL compiler's bytes for every generated source.
 -/
-import Nlmodel.Model.Verifier
+import Nlmodel.Proofs.Lemmas.VerifierSound
 namespace Nl
 namespace C02
 open Verifier
@@ -27,6 +33,60 @@ theorem C02_certified_decodes (bc : Bytecode) (c : Cert) (hc : check bc c = true
   cases hd : decodeAt bc.code pc with
   | none => simp [hd] at this
   | some i => exact ⟨i, rfl, by simpa [hd] using this⟩
+
+/-- one step of a checked program from a state satisfying the invariant (certificate entry at the
+    instruction pointer, operand height above the locals, every suspended frame able to take its
+    result, every function value a checked entry) either halts, fails with an error value, or
+    continues in a state satisfying the invariant — it never faults -/
+theorem C02_step_preserves (bc : Bytecode) (c : Cert) (hc : check bc c = true) (s : VM) (o h : Nat)
+    (inv : Inv bc c s o h) :
+    (∃ s' o' h', step bc.code s = .next s' ∧ Inv bc c s' o' h') ∨ (∃ v s', step bc.code s = .halt v s')
+    ∨ (∃ e s', step bc.code s = .error e s') := by
+  have hg := step_good bc c hc s o h inv
+  cases hs : step bc.code s with
+  | next s' => rw [hs] at hg; obtain ⟨o', h', i'⟩ := hg; exact Or.inl ⟨s', o', h', rfl, i'⟩
+  | halt v s' => exact Or.inr (Or.inl ⟨v, s', rfl⟩)
+  | error e s' => exact Or.inr (Or.inr ⟨e, s', rfl⟩)
+  | fault site => rw [hs] at hg; exact absurd hg (by simp [Good])
+
+/-- SOUNDNESS: for bytecode the checker accepts, `eval`'s run — a fresh machine — never reaches a
+    fault, for any instruction budget: no stack underflow, no fetch outside the code or off an
+    instruction boundary, no running out of a function body, every constant, local-slot and builtin
+    number in range -/
+theorem C02_check_sound (bc : Bytecode) (c : Cert) (hc : check bc c = true) (n : Nat) (site : String) :
+    VM.run {} bc n ≠ .fault site := by
+  have inv := start_inv bc c hc {} (by intro v hv; simp at hv) (by intro a v hv; simp [Heap.arrAt, Heap.get] at hv)
+  have := run_never_faults bc c hc n _ 0 0 inv
+  unfold VM.run
+  cases hr : runSteps bc.code n (VM.start {} bc) with
+  | value v s => simp
+  | error e s => simp
+  | budget s => simp
+  | fault st => exact absurd hr (this st)
+
+/-- the same for a retained machine (a session), provided the carried globals and heap hold only
+    function values that are entries of THIS bytecode (they do within U8: scalars only) -/
+theorem C02_check_sound_session (bc : Bytecode) (c : Cert) (hc : check bc c = true) (prev : VM)
+    (hg : ∀ v ∈ prev.globals, ValOK c (fnTable bc.consts) v) (hh : HeapOK c (fnTable bc.consts) prev.mem.heap)
+    (n : Nat) (site : String) : VM.run prev bc n ≠ .fault site := by
+  have inv := start_inv bc c hc prev hg hh
+  have := run_never_faults bc c hc n _ 0 0 inv
+  unfold VM.run
+  cases hr : runSteps bc.code n (prev.start bc) with
+  | value v s => simp
+  | error e s => simp
+  | budget s => simp
+  | fault st => exact absurd hr (this st)
+
+/-- the verdict the check uses (`verify` = infer a certificate, then check it) inherits soundness:
+    the inference is untrusted -/
+theorem C02_verify_sound (bc : Bytecode) (hv : verify bc = true) (n : Nat) (site : String) :
+    VM.run {} bc n ≠ .fault site :=
+  C02_check_sound bc (inferCert bc) hv n site
+
+/-- non-vacuity: the bytecode of the program `1` (Const 0; Pop; Halt) with its certificate is accepted -/
+example : check { code := #[0, 0, 0, 1, 44], consts := [.int 1] }
+    { ent := #[some (0, 0), none, none, some (0, 1), some (0, 0)] } = true := by decide
 
 end C02
 end Nl
